@@ -10,11 +10,8 @@ def must(s, a, b, n=1):
     return s.replace(a, b, n)
 
 def c07b(s):
-    s = must(s, '''	"errors"
-	"fmt"
-)''', '''	"errors"
-	"fmt"
-
+    s = must(s, '''	cbor "github.com/fxamacker/cbor/v2"
+)''', '''	cbor "github.com/fxamacker/cbor/v2"
 	"github.com/veraison/eat"
 )''')
     s = must(s, '		Profile string `cbor:"265,keyasint"`\n', '''		// eat_profile is either a URI (text string) or an OID (byte
@@ -23,7 +20,7 @@ def c07b(s):
 		Profile *eat.Profile `cbor:"265,keyasint"`
 ''')
     s = must(s, '''	name := selector.Profile
-	if name == "" {''', '''	var name string
+''', '''	var name string
 
 	if selector.Profile != nil {
 		if name, err = selector.Profile.Get(); err != nil {
@@ -31,21 +28,13 @@ def c07b(s):
 		}
 	}
 
-	if name == "" {''')
+''')
     return s
 
 def c20f(s):
-    blk = '''	name := selector.Profile
-	if name == "" {
-		name = selector.PsaProfile
-	}
-
-	entry, ok := profilesRegister[name]
-	if !ok {
-		return nil, fmt.Errorf("unknown profile: %q", name)
-	}
-
-'''
+    a = s.index('	name := selector.Profile\n')
+    b = s.index('	claims := entry.Profile.GetClaims()')
+    blk = s[a:b]
     s = must(s, blk, '')
     anchor = '	// CBOR null / undefined "decode" into any Go value without an error'
     return must(s, anchor, blk + anchor)
